@@ -172,29 +172,31 @@ def run_api(case, ctx):
   fired = 0
   for k in range(case["k0"], min(case["k1"], total) + 1):
     log2 = monitors.EventLog()
-    fpk = monitors.Failpoint(k)
+    # the failing evaluation raises one of the exception types a user function can raise (rotating over k, so that
+    # every type meets every kind of function over the shards); StopIteration is the one loops can swallow
+    etype = monitors.FAULT_TYPES[(k + case["k0"] // KSHARD) % len(monitors.FAULT_TYPES)]
+    fpk = monitors.Failpoint(k, etype)
+    ctx.cls("fault_type:" + etype.__name__)
     wrapk = lambda f, tag: monitors.Spy(f, tag, log2, fpk)
     try:
       wk, binary = build(case, wrapk)
-    except monitors.InjectedFault:
-      continue   # an evaluation during construction (e.g. spline set-up) - nothing has been written yet
+    except Exception as e:
+      if "INJECTED-FAULT" in str(e):
+        continue   # an evaluation during construction (e.g. spline set-up) - nothing has been written yet
+      raise
     rfk = monitors.RecordingFile(log2, binary=binary)
     try:
       wk(rfk)
       raised = False
-    except monitors.InjectedFault:
-      raised = True
     except Exception as e:
-      et, fn = exc_sig(e)
-      ctx.violation("fault_masked", "%s: injected fault at evaluation %d surfaced as %s %s" % (t, k, et, e), what="fault_masked")
-      return
+      raised = True   # any exception counts as "failed"; what matters is what had been written
     ctx.count("faults_injected")
     if not fpk.fired:
       ctx.violation("failpoint_not_reached", "%s: evaluation %d of %d was never reached" % (t, k, total), what="failpoint_not_reached")
       return
     fired += 1
     if not raised:
-      ctx.violation("fault_swallowed", "%s: write() returned normally although evaluation %d failed (%d bytes written)" % (t, k, rfk.nbytes), what="fault_swallowed", target=t)
+      ctx.violation("fault_swallowed", "%s: write() returned normally although evaluation %d failed with %s (%d bytes written, full table %d)" % (t, k, etype.__name__, rfk.nbytes, len(plain)), what="fault_swallowed", target=t)
       return
     # a second write() on the SAME object after the failed one (the fault does not fire again): the object must
     # not have kept half-built state - it emits the whole table, or nothing together with an exception
